@@ -498,6 +498,26 @@ Definition project (i : idx) : list (key * bool * option oid) := map (project1 i
 Definition enc_project (l : list (key * bool * option oid)) : val :=
   enc_list (fun t : key * bool * option oid => VL [enc_key (fst (fst t)); enc_bool (snd (fst t)); enc_hash (snd t)]) l.
 
+(* ---- the hypotheses of the C17 theorems, as booleans (evaluated on every generated valid case) ---- *)
+Definition okb (E : env) (i : idx) : bool :=
+  forallb (fun x => negb (loadable E x) || is_some (listing_of E (snd x))) i.
+Fixpoint nodupb (l : list key) : bool :=
+  match l with
+  | [] => true
+  | k :: r => negb (mem_key k r) && nodupb r
+  end.
+Definition wfb (E : env) (i : idx) : bool :=
+  forallb (fun x => negb (loadable E x) ||
+                    forallb (fun y => negb (is_prefix (fst x) (fst y)) || key_eqb (fst y) (fst x)) i) i
+  && forallb (fun x => match fst x with [] => false | _ => true end) i.
+Definition tree_rowsb (rows : list lrow) : bool :=
+  forallb (fun r1 => forallb (fun r2 => negb (is_prefix (r_key r1) (r_key r2))
+                                        || key_eqb (r_key r1) (r_key r2)) rows) rows.
+Definition lwfb (E : env) (i : idx) : bool :=
+  forallb (fun x => match listing_of E (snd x) with Some rows => tree_rowsb rows | None => true end) i.
+Definition hypsb (E : env) (i : idx) : bool :=
+  okb E i && nodupb (map fst i) && wfb E i && lwfb E i.
+
 (* ---- filters used by the harness (all prefix-closed but f_under) ----------------------------------------- *)
 Definition f_anc (p : key) : key -> bool := fun k => is_prefix k p || is_prefix p k.
 Definition f_notunder (p : key) : key -> bool := fun k => negb (is_prefix p k).
@@ -517,5 +537,6 @@ Definition Rw (k : key) (h : oid) (sz : option N) (x : bool) : lrow :=
 Record case := { c_env : env; c_idx : idx; c_ops : list op; c_proj : bool }.
 Definition run_case (c : case) : val :=
   VL (VL (answers (c_env c) (c_idx c) (c_ops c)) ::
-      if c_proj c then [enc_project (project (load_all (c_env c) (c_idx c)));
+      if c_proj c then [enc_bool (hypsb (c_env c) (c_idx c));
+                        enc_project (project (load_all (c_env c) (c_idx c)));
                         enc_project (project (explicit (c_env c) (c_idx c)))] else []).
